@@ -58,8 +58,9 @@ VARIABLES
     stale,    \* the namespace configuration changed since the session last looked
     phase,    \* "idle" between commands, "busy" inside one (event level only)
     \* ---- observation of the last command
-    last,     \* the last command: [k, sl, kind, first, fl] kind of command, slices addressed, statement kind, slice
-              \*   visited first, fault that fired; [wasTx, wasStale, pre] InTx / stale / connection map before it
+    last,     \* the last command: [k, sl, kind, first, fl, mid] kind of command, slices addressed, statement kind, slice
+              \*   visited first, fault that fired, namespace reloaded while the command was executing;
+              \*   [wasTx, wasStale, pre] InTx / stale / connection map before it
     used,     \* set of <<slice, conn, inTxAtThatTime>>: statements sent during the last command
     ended,    \* connections that received COMMIT / ROLLBACK / SET autocommit=1 during the last command
     reply,    \* "ok" | "err" | "none"
@@ -75,7 +76,7 @@ Gone == {c \in Conns : cs[c].st = "gone"}
 FreshConn == [st |-> "none", bad |-> "ok", tx |-> FALSE, ac0 |-> FALSE]
 NoMap == [s \in Slices |-> NoConn]
 NoFault == [op |-> "none", sl |-> 0, kind |-> "none"]
-NoLast == [k |-> "none", sl |-> {}, kind |-> "none", first |-> 0, fl |-> NoFault,
+NoLast == [k |-> "none", sl |-> {}, kind |-> "none", first |-> 0, fl |-> NoFault, mid |-> FALSE,
            wasTx |-> FALSE, wasStale |-> FALSE, pre |-> NoMap]
 
 TypeOK ==
@@ -192,8 +193,8 @@ Faults == {[op |-> "exec", sl |-> s, kind |-> k] : s \in Slices, k \in {"err", "
           \cup {[op |-> o, sl |-> s, kind |-> "broken"] : o \in FaultOps \ {"exec", "get"}, s \in Slices}
           \cup {[op |-> "get", sl |-> s, kind |-> "err"] : s \in Slices}
 
-World(f) == [cs |-> cs, ac |-> ac, intx |-> intx, tx |-> tx, ks |-> ks, alive |-> alive,
-             fl |-> f, fired |-> FALSE, used |-> {}, ended |-> {}, err |-> FALSE, over |-> FALSE]
+World(f, m) == [cs |-> cs, ac |-> ac, intx |-> intx, tx |-> tx, ks |-> ks, alive |-> alive,
+             fl |-> f, mid |-> m, fired |-> FALSE, used |-> {}, ended |-> {}, err |-> FALSE, over |-> FALSE]
 
 WInTx(w) == w.intx \/ ~w.ac
 Fire(w, op, sl) == w.fl.op = op /\ w.fl.sl = sl
@@ -308,7 +309,7 @@ RecycleOne(w, c) ==
     THEN IF KS THEN PutConn([w EXCEPT !.ks[SliceOf(c)] = NoConn], c)      \* [repaired: unpin the dead connection]
          ELSE IF WInTx(w) THEN AbortTx(w)                                  \* [repaired: the others are returned too]
          ELSE PutConn(w, c)
-    ELSE IF KS THEN (IF stale /\ ~WInTx(w) THEN DropKs(w) ELSE w)   \* clearKsConns(nsChangeIndexOld) after the statement
+    ELSE IF KS THEN (IF (stale \/ w.mid) /\ ~WInTx(w) THEN DropKs(w) ELSE w)   \* clearKsConns(nsChangeIndexOld) after the statement
     ELSE IF WInTx(w) THEN w
     ELSE PutConn(w, c)
 
@@ -397,16 +398,18 @@ CmdPing(w) ==                                         \* handleKeepSessionPing
 
 Commit(w, k, S, kind, first, f, wasTx) ==
     /\ Assert(~w.over, "MaxPerPool is too small for this behaviour")
+    /\ (w.mid => w.used # {})             \* the reload is triggered by the command's first statement on a backend
     /\ w.fl = NoFault                               \* an armed fault must have fired (no silent no-op faults)
     /\ cs' = w.cs /\ ac' = w.ac /\ intx' = w.intx /\ tx' = w.tx /\ ks' = w.ks /\ alive' = w.alive
     /\ used' = w.used /\ ended' = w.ended
     /\ reply' = IF k = "disconnect" THEN "none" ELSE IF w.err THEN "err" ELSE "ok"
-    /\ last' = [k |-> k, sl |-> S, kind |-> kind, first |-> first, fl |-> f,
+    /\ last' = [k |-> k, sl |-> S, kind |-> kind, first |-> first, fl |-> f, mid |-> w.mid,
                 wasTx |-> wasTx, wasStale |-> stale, pre |-> IF KS THEN ks ELSE tx]
-    /\ stale' = FALSE
+    /\ stale' = w.mid                     \* a reload during the command is noticed by the next one
     /\ nc' = nc + 1
     /\ nf' = IF w.fired THEN nf + 1 ELSE nf
-    /\ UNCHANGED <<KS, User, phase, nn>>
+    /\ nn' = IF w.mid THEN nn + 1 ELSE nn
+    /\ UNCHANGED <<KS, User, phase>>
 
 (* loop head of Session.Run applied to world w; returns [w, refused] *)
 LoopHead(w) ==
@@ -426,16 +429,22 @@ Body(w, k, S, kind, first) ==
       [] k = "quit"      -> [CloseSession(EndTx(w, "rollback")) EXCEPT !.err = FALSE]   \* COM_QUIT has no reply
       [] OTHER           -> w
 
-Command(k, S, kind, first, f) ==
+(* mid: the namespace is reloaded while the command executes (the reload commits during the   *)
+(* command's first backend statement).  The command itself still runs with the namespace it    *)
+(* started with; clearKsConns after an unsharded statement already sees the new generation;    *)
+(* the next command must notice the change.  Only generated for keep-session sessions, the     *)
+(* only ones a namespace change matters to.                                                     *)
+Command(k, S, kind, first, f, mid) ==
     /\ alive /\ nc < MaxCmds
     /\ f # NoFault => nf < MaxFaults
-    /\ LET h == LoopHead(World(f))
+    /\ mid => (KS /\ nn < MaxNs /\ k \in {"unshard", "shard"})
+    /\ LET h == LoopHead(World(f, mid))
            r == IF h.refused THEN CloseSession(h.w) ELSE Body(h.w, k, S, kind, first)
        IN Commit(r, k, S, kind, first, f, InTx)
 
 Disconnect ==                                         \* read error: clearKsConns, Close
     /\ alive /\ nc < MaxCmds
-    /\ LET h == LoopHead(World(NoFault))
+    /\ LET h == LoopHead(World(NoFault, FALSE))
        IN Commit(CloseSession([h.w EXCEPT !.err = FALSE]), "disconnect", {}, "none", 0, NoFault, InTx)
 
 NsChange ==                                           \* the namespace is reloaded (environment)
@@ -452,30 +461,30 @@ FaultsFor(ops, S) == {NoFault} \cup {f \in Faults : f.op \in ops /\ f.op \in FOp
 StmtOps == {"get", "sync", "begin", "setac", "init", "exec"}
 SliceSets == {{0}, {1}, {0, 1}}
 
-Begin(f)            == Command("begin", {}, "none", 0, f)
-CommitCmd(f)        == Command("commit", {}, "none", 0, f)
-Rollback(f)         == Command("rollback", {}, "none", 0, f)
-SetAutocommit0(f)   == Command("setac0", {}, "none", 0, f)
-SetAutocommit1(f)   == Command("setac1", {}, "none", 0, f)
-Unsharded(kind, f)  == Command("unshard", {0}, kind, 0, f)
+Begin(f)            == Command("begin", {}, "none", 0, f, FALSE)
+CommitCmd(f)        == Command("commit", {}, "none", 0, f, FALSE)
+Rollback(f)         == Command("rollback", {}, "none", 0, f, FALSE)
+SetAutocommit0(f)   == Command("setac0", {}, "none", 0, f, FALSE)
+SetAutocommit1(f)   == Command("setac1", {}, "none", 0, f, FALSE)
+Unsharded(kind, f, mid) == Command("unshard", {0}, kind, 0, f, mid)
 (* The slice visited first matters only when acquiring a connection fails half way while the  *)
 (* session keeps what it already took (transaction / keep-session); otherwise first = 0.      *)
 ShardOutcome(S, kind, first, f) ==
-    LET h == LoopHead(World(f)) r == IF h.refused THEN h.w ELSE Body(h.w, "shard", S, kind, first)
+    LET h == LoopHead(World(f, FALSE)) r == IF h.refused THEN h.w ELSE Body(h.w, "shard", S, kind, first)
     IN <<r.cs, r.tx, r.ks, r.err, r.fired>>
 OrderMatters(S, kind, f) ==
     /\ Cardinality(S) = 2 /\ f.op \in {"get", "sync", "begin", "setac"} /\ (KS \/ InTx)
     /\ ShardOutcome(S, kind, 0, f) # ShardOutcome(S, kind, 1, f)
-Sharded(S, kind, first, f) == /\ alive /\ nc < MaxCmds
-                              /\ (first = 1 => OrderMatters(S, kind, f))
-                              /\ Command("shard", S, kind, first, f)
+Sharded(S, kind, first, f, mid) == /\ alive /\ nc < MaxCmds
+                                   /\ (first = 1 => OrderMatters(S, kind, f))
+                                   /\ Command("shard", S, kind, first, f, mid)
 
 (* statement kinds that differ for the user: a user without read/write splitting sends        *)
 (* everything to the master; only a read-only user distinguishes a locking read from a write. *)
 StmtKinds == CASE User = "rw" -> {"write"} [] User = "rws" -> {"read", "write"} [] OTHER -> {"read", "write", "lockread"}
 ShardKinds == StmtKinds \ {"lockread"}
-Ping(f)             == Command("ping", {}, "none", 0, f)
-Quit(f)             == Command("quit", {}, "none", 0, f)
+Ping(f)             == Command("ping", {}, "none", 0, f, FALSE)
+Quit(f)             == Command("quit", {}, "none", 0, f, FALSE)
 
 Ending == Disconnect \/ \E f \in FaultsFor({"rollback"}, Slices) : Quit(f)
 
@@ -485,9 +494,9 @@ Next ==
     \/ \E f \in FaultsFor({"rollback"}, Slices) : Rollback(f)
     \/ \E f \in FaultsFor({"setac"}, Slices) : SetAutocommit0(f)
     \/ \E f \in FaultsFor({"setac"}, Slices) : SetAutocommit1(f)
-    \/ \E kind \in StmtKinds, f \in FaultsFor(StmtOps, {0}) : Unsharded(kind, f)
+    \/ \E kind \in StmtKinds, f \in FaultsFor(StmtOps, {0}), mid \in BOOLEAN : Unsharded(kind, f, mid)
     \/ \E S \in SliceSets, kind \in ShardKinds, first \in Slices :
-          \E f \in FaultsFor(StmtOps, S) : Sharded(S, kind, first, f)
+          \E f \in FaultsFor(StmtOps, S), mid \in BOOLEAN : Sharded(S, kind, first, f, mid)
     \/ \E f \in FaultsFor({"ping"}, Slices) : Ping(f)
     \/ \E f \in FaultsFor({"rollback"}, Slices) : Quit(f)
     \/ Disconnect
